@@ -632,16 +632,18 @@ def multi_case(draw, shard, tier):
     ops = []
     for _ in range(d.int(3, 8)):
         j = d.int(0, len(targets) - 1)
-        kind = d.pick("propagate", "propagate", "copy", "copy", "period", "hohmann", "n")
+        kind = d.pick("propagate", "propagate", "copy", "copy", "coelliptic", "period", "hohmann", "n")
         P = period_us(targets[j]["sma"], targets[j]["body"])
         ops.append(dict(j=j, kind=kind, t=int(d.u(-2.0, 2.0) * P), radial=d.signed(10.0, 3000.0)))
-    return dict(k0=d.int(0, 86_399_999_999), targets=targets, ops=ops, lazy=d.coin())
+    return dict(k0=d.int(0, 86_399_999_999), targets=targets, ops=ops, lazy=d.coin(), by_name=d.coin())
 
 
 def check_multi(case):
     from beyond.utils.cwhelper import CWHelper
 
     built = {}
+
+    by_name = case.get("by_name", False)
 
     def get(j):
         if j not in built:
@@ -652,7 +654,26 @@ def check_multi(case):
             built[j] = (orb, epoch, CWHelper(orb.propagator))
         return built[j]
 
-    if not case["lazy"]:
+    if by_name:
+        # every Hill frame and propagator first; then the chaser orbits, labelled with the frame NAME
+        # 'Hill' - which by then names the Hill frame created last, of another orientation / centre for
+        # most targets.  The propagator's own frame rules: the numbers are taken as given.
+        from beyond.frames.frames import HillFrame
+        from beyond.orbits import Orbit
+        from beyond.propagators.cw import ClohessyWiltshire
+
+        props = {}
+        for j, tg in enumerate(case["targets"]):
+            if "share" in tg:
+                props[j] = props[tg["share"]]
+            else:
+                props[j] = ClohessyWiltshire(tg["sma"], frame=HillFrame(orientation=tg["ori"], center=center_of(tg["body"])))
+        epoch = epoch_date(case["k0"])
+        order = sorted(range(len(props)), key=lambda j: (case["k0"] + 7 * j) % 5)
+        for j in order:
+            orb = Orbit(list(case["targets"][j]["x0"]), epoch, "cartesian", "Hill", props[j])
+            built[j] = (orb, epoch, CWHelper(props[j]))
+    elif not case["lazy"]:
         for j in range(len(case["targets"])):
             get(j)
     worst = 0.0
@@ -667,7 +688,7 @@ def check_multi(case):
             # "copy": a copy of the orbit carries a copy of its propagator, which must stay this target's
             src = orb.copy() if op["kind"] == "copy" else orb
             res = src.propagate(at(epoch, op["t"]))
-            if res.frame.orientation != tg["ori"]:
+            if not by_name and res.frame.orientation != tg["ori"]:
                 raise Violation("result-frame-multi", f"{who}: result in {res.frame.name}")
             got = state_of(res)
             want, scale = hill.piecewise(n, np.array(tg["x0"], float), [], t, tg["ori"])
@@ -678,6 +699,20 @@ def check_multi(case):
                 j = int(np.argmax(np.abs(got - want) / tol))
                 raise Violation("hill-solution-multi", f"{who}: t={t!r} s, component {j} is {float(got[j])!r}, Hill's "
                                 f"equations about {tg['body']} give {float(want[j])!r} ({r:.3g} x tol)", ratio=r)
+        elif op["kind"] == "coelliptic":
+            # CWHelper.coelliptic() labels its orbit 'Hill' as well
+            t = op["t"] * US
+            radial, tang = op["radial"], -2.5 * op["radial"]
+            chaser = helper.coelliptic(epoch, radial, tang)
+            got = state_of(chaser.propagate(at(epoch, op["t"])))
+            x0c = hill.perm6(tg["ori"]) @ np.array([radial, tang, 0.0, 0.0, -1.5 * n * radial, 0.0])
+            want, scale = hill.piecewise(n, x0c, [], t, tg["ori"])
+            tol = tol_state(n, scale, n * t, 2)
+            r = float(np.max(np.abs(got - want) / tol))
+            worst = max(worst, r)
+            if r > 1:
+                raise Violation("coelliptic-multi", f"{who}: helper.coelliptic({radial!r}, {tang!r}) propagated {t!r} s gives "
+                                f"{got.tolist()}, Hill's equations give {want.tolist()} ({r:.3g} x tol)", ratio=r)
         elif op["kind"] == "period":
             got = helper.period.total_seconds()
             if abs(got - 2 * math.pi / n) > 1e-6:
@@ -698,6 +733,7 @@ def check_multi(case):
     clash = len(bodies) > len(smas)
     return dict(nt=clash, cls=["same-sma-other-body" if clash else "distinct", f"targets:{len(case['targets'])}",
                                *(["shared-propagator"] if any("share" in t for t in case["targets"]) else []),
+                               *(["orbits-by-name"] if by_name else []),
                                "lazy" if case["lazy"] else "eager"], ratio=worst)
 
 
